@@ -638,7 +638,7 @@ def _const_truth(e):
     return None
 
 
-def folded_returns(cfg, func, atom_eval, limit=4000, subst=None):
+def folded_returns(cfg, func, atom_eval, limit=4000, subst=None, follow_exc=False, tag_exc=False):
     """the return expressions reachable when branch atoms are decided by atom_eval (None = both ways) and, where
     that says nothing, by folding: locals are substituted by the expressions assigned to them along the path,
     lookups in module-level literal tables (`T.get(k)`, `T[k]`), `getattr(x, "name")` and tuple unpacking are
@@ -647,16 +647,27 @@ def folded_returns(cfg, func, atom_eval, limit=4000, subst=None):
     out = set()
     stack = [(cfg.entry, {})]
     steps = 0
+    seen_states = set()
     while stack:
         nid, env = stack.pop()
+        st_key = (nid, tuple(sorted((k, utext(v)) for k, v in env.items())))
+        if st_key in seen_states:
+            continue
+        seen_states.add(st_key)
         steps += 1
         if steps > limit:
             raise AnalysisError("%s: path enumeration did not terminate" % func.qual)
         n = cfg.nodes[nid]
+        if follow_exc:
+            # an exception leaves the statement before its effect: the handler sees the environment as it was
+            env_exc = dict(env)
+            if tag_exc:
+                env_exc["__exc__"] = ast.Constant(value=True)
+            stack += [(m, env_exc) for l, m in n.succ if l == "exc"]
         if n.kind == "return":
             import copy as _c
             v = _Fold(env, tables, subst).visit(_c.deepcopy(n.ast.value)) if n.ast.value is not None else ast.Constant(value=None)
-            out.add(utext(v))
+            out.add((utext(v), "__exc__" in env) if tag_exc else utext(v))
             continue
         if n.kind == "stmt" and isinstance(n.ast, ast.Assign) and len(n.ast.targets) == 1:
             import copy as _c
@@ -682,7 +693,7 @@ def folded_returns(cfg, func, atom_eval, limit=4000, subst=None):
                 stack += [(m, env) for l, m in n.succ if l == ("T" if v else "F")]
                 continue
         if n.kind == "exit":
-            out.add("None")
+            out.add(("None", "__exc__" in env) if tag_exc else "None")
             continue
         stack += [(m, env) for l, m in n.succ if l != "exc"]
     return out
